@@ -1,13 +1,20 @@
 #!/bin/bash
-# MANIFEST.setup_cmd: build the framework offline and prewarm the Go build cache.
-set -eu
+# MANIFEST.setup_cmd: build the framework offline and prewarm the Go build cache for every
+# check claimed in MANIFEST.json (a build failure of one command does not stop the others;
+# the affected check will then report a machinery error itself).
+set -u
 cd "$(dirname "$0")"
 . tools/env.sh
 mkdir -p .build/bin .build/tmp evidence replays
-while read -r id builds; do
-  [ -z "$id" ] && continue
+claimed=$(python3 -c "import json;print(' '.join(c['property_id'] for c in json.load(open('MANIFEST.json'))['checks']))")
+rc=0
+for id in $claimed; do
+  builds=$(grep -E "^${id}[[:space:]]" tools/checks.tsv | awk '{print $2}')
   for b in ${builds//,/ }; do
-    python3 tools/build.py "${b%%:*}" "${b##*:}" >/dev/null
+    if ! python3 tools/build.py "${b%%:*}" "${b##*:}" >/dev/null; then
+      echo "setup: build of ${b} for ${id} failed" >&2; rc=1
+    fi
   done
-done < tools/checks.tsv
-echo "setup ok"
+done
+[ $rc = 0 ] && echo "setup ok"
+exit $rc
